@@ -65,7 +65,23 @@ func product(lists [][]string) []string {
 	return out
 }
 
+// eqList compares two lists element by element (an empty list differs from a list holding one empty string).
+func eqList(a, b []string) bool {
+	if len(a) != len(b) {
+		return false
+	}
+	for i := range a {
+		if a[i] != b[i] {
+			return false
+		}
+	}
+	return true
+}
+
 func sameMultiset(a, b []string) bool {
+	if len(a) != len(b) {
+		return false
+	}
 	x, y := append([]string{}, a...), append([]string{}, b...)
 	sort.Strings(x)
 	sort.Strings(y)
@@ -230,7 +246,7 @@ func c19(args []string) {
 				jobs = append(jobs, &c19Job{name: "IPSelectorSync", s: s, cfg: cfgOf([]int{1, 3}[mask%2]), label: fmt.Sprintf("%d ports, %d tuples, keep mask %b", k, n, mask),
 					oracle: func(res *run.Result, ti *mon.TraceIndex, exp *ref.Result) []mon.Problem {
 						got, ok := tuplesOf(ti, recs)
-						if !ok || strings.Join(got, "\x00") != strings.Join(w, "\x00") {
+						if !ok || !eqList(got, w) {
 							return []mon.Problem{{Sig: "selector-wrong-tuples", Msg: fmt.Sprintf("forwarded tuples %v (aligned %v), expected %v", got, ok, w)}}
 						}
 						return nil
@@ -368,10 +384,10 @@ func c19(args []string) {
 		jobs = append(jobs, &c19Job{name: "FileSource+ParamSource", s: s, cfg: cfgOf(1), label: fmt.Sprintf("%d items", n),
 			oracle: func(res *run.Result, ti *mon.TraceIndex, exp *ref.Result) []mon.Problem {
 				var ps []mon.Problem
-				if strings.Join(recPaths(ti, "RF"), "\x00") != strings.Join(files, "\x00") {
+				if !eqList(recPaths(ti, "RF"), files) {
 					ps = append(ps, mon.Problem{Sig: "filesource-emitted", Msg: fmt.Sprintf("emitted %v, given %v", recPaths(ti, "RF"), files)})
 				}
-				if strings.Join(recPaths(ti, "RP"), "\x00") != strings.Join(vals, "\x00") {
+				if !eqList(recPaths(ti, "RP"), vals) {
 					ps = append(ps, mon.Problem{Sig: "paramsource-emitted", Msg: fmt.Sprintf("emitted %v, given %v", recPaths(ti, "RP"), vals)})
 				}
 				return ps
@@ -397,10 +413,10 @@ func c19(args []string) {
 			jobs = append(jobs, &c19Job{name: "FileToParamsReader+CommandToParams", s: s, cfg: cfgOf(1 + li%3), label: fmt.Sprintf("lines %q, trailing newline %v", lines, trailing),
 				oracle: func(res *run.Result, ti *mon.TraceIndex, exp *ref.Result) []mon.Problem {
 					var ps []mon.Problem
-					if strings.Join(recPaths(ti, "R1"), "\x00") != strings.Join(w, "\x00") {
+					if !eqList(recPaths(ti, "R1"), w) {
 						ps = append(ps, mon.Problem{Sig: "filetoparamsreader-emitted", Msg: fmt.Sprintf("emitted %q, file has lines %q", recPaths(ti, "R1"), w)})
 					}
-					if strings.Join(recPaths(ti, "R2"), "\x00") != strings.Join(w, "\x00") {
+					if !eqList(recPaths(ti, "R2"), w) {
 						ps = append(ps, mon.Problem{Sig: "commandtoparams-emitted", Msg: fmt.Sprintf("emitted %q, command printed lines %q", recPaths(ti, "R2"), w)})
 					}
 					return ps
@@ -430,7 +446,7 @@ func c19(args []string) {
 						}
 					}
 				}
-				if strings.Join(recPaths(ti, "R"), "\x00") != strings.Join(want, "\x00") {
+				if !eqList(recPaths(ti, "R"), want) {
 					return []mon.Problem{{Sig: "globber-emitted", Msg: fmt.Sprintf("patterns %v emitted %v, matching files are %v", pp, recPaths(ti, "R"), want)}}
 				}
 				return nil
@@ -456,6 +472,9 @@ func c19(args []string) {
 		}
 		ti := mon.Index(res.Trace)
 		ps := j.oracle(res, ti, nil)
+		for _, l := range run.Snap(res.Wd).Leftovers() {
+			ps = append(ps, mon.Problem{Sig: "component-leaves-tempdir", Msg: j.name + " run left " + l + " behind"})
+		}
 		if len(ps) > 0 {
 			for _, sig := range sigSet(ps) {
 				desc["problems"] = mon.Summarize(ps, 8)
